@@ -752,3 +752,106 @@ def gen_walkworker():
 
 
 MODULES["WalkWorker"] = gen_walkworker
+
+
+# ------------------------------------------------------------------ point lookup (C12)
+_TURN = {"0": "0", "HALFPI": "1/4", "np.pi": "1/2", "THREEHALFPI": "3/4", "TWOPI": "1"}
+
+
+def gen_lookup():
+    tree = parse("toasty/toast.py")
+    out = HEADER.format(src="toasty/toast.py") + "namespace Gen\nnamespace Lookup\n\n"
+    consts = {ast.unparse(n.targets[0]): ast.unparse(n.value) for n in tree.body if isinstance(n, ast.Assign) and len(n.targets) == 1}
+    want = {"HALFPI": "0.5 * np.pi", "THREEHALFPI": "1.5 * np.pi", "TWOPI": "2 * np.pi"}
+    for k, v in want.items():
+        if consts.get(k) != v:
+            raise ExtractError(f"toast.py: {k} = {consts.get(k)} (expected {v})")
+    sc = find_def(tree, "_toast_tile_containment_score")
+    body = [s for s in sc.body if not (isinstance(s, ast.Expr) and isinstance(s.value, ast.Constant))]
+    if ast.unparse(body[0]) != "if tile.pos.n == 0:\n    return 0":
+        raise ExtractError("_toast_tile_containment_score: level-0 case not recognised")
+    l1 = body[1]
+    if not (isinstance(l1, ast.If) and ast.unparse(l1.test) == "tile.pos.n == 1" and not l1.orelse):
+        raise ExtractError("_toast_tile_containment_score: level-1 block not recognised")
+    rules = []
+    for s in l1.body[:-1]:
+        if not (isinstance(s, ast.If) and isinstance(s.test, ast.BoolOp) and isinstance(s.test.op, ast.And) and not s.orelse
+                and ast.unparse(s.body[0]) == "return 0" and len(s.body) == 1 and len(s.test.values) == 4):
+            raise ExtractError(f"level-1 rule not recognised: {ast.unparse(s)[:80]}")
+        lo = hi = x = y = None
+        for c in s.test.values:
+            if not (isinstance(c, ast.Compare) and len(c.ops) == 1):
+                raise ExtractError(f"level-1 condition not recognised: {ast.unparse(c)}")
+            left, op, right = ast.unparse(c.left), c.ops[0], ast.unparse(c.comparators[0])
+            if left == "lon" and isinstance(op, (ast.Gt, ast.GtE)) and right in _TURN:
+                lo = ("true" if isinstance(op, ast.GtE) else "false", _TURN[right])
+            elif left == "lon" and isinstance(op, (ast.Lt, ast.LtE)) and right in _TURN:
+                hi = ("true" if isinstance(op, ast.LtE) else "false", _TURN[right])
+            elif left == "tile.pos.x" and isinstance(op, ast.Eq) and right in ("0", "1"):
+                x = right
+            elif left == "tile.pos.y" and isinstance(op, ast.Eq) and right in ("0", "1"):
+                y = right
+            else:
+                raise ExtractError(f"level-1 condition not recognised: {ast.unparse(c)}")
+        if None in (lo, hi, x, y):
+            raise ExtractError(f"level-1 rule incomplete: {ast.unparse(s.test)}")
+        rules.append(f"({lo[0]}, ({lo[1]} : Rat), {hi[0]}, ({hi[1]} : Rat), {x}, {y})")
+    last = ast.unparse(l1.body[-1])
+    m = re.fullmatch(r"return (-?\d+)", last)
+    if not m or int(m.group(1)) == 0:
+        raise ExtractError(f"level-1 default is `{last}`")
+    out += ("/-- `_toast_tile_containment_score`, level-1 branch: (lower bound inclusive?, lower bound, upper bound inclusive?, upper bound, x, y) —\n"
+            "score 0 when the longitude (in turns: HALFPI = 1/4, π = 1/2, THREEHALFPI = 3/4, TWOPI = 1) is in the interval and the tile is (1, x, y) -/\n")
+    out += "def level1_rules : List (Bool × Rat × Bool × Rat × Nat × Nat) := [" + ", ".join(rules) + "]\n"
+    out += f"def level1_default : Int := {m.group(1)}\n\n"
+    # the geometric score: sum of four clipped half-space scores, each min(dot(cross(a, b), p), 0)
+    hs = find_def(tree, "_left_of_half_space_score")
+    hs_ok = ast.unparse(hs.body[-1]) == "return min(np.dot(np.cross(point_a, point_b), test_point), 0)"
+    tail = [ast.unparse(s) for s in body[-5:]]
+    sum_ok = tail == ["upper = _left_of_half_space_score(ul, ur, test_point)", "right = _left_of_half_space_score(ur, lr, test_point)",
+                      "lower = _left_of_half_space_score(lr, ll, test_point)", "left = _left_of_half_space_score(ll, ul, test_point)",
+                      "return upper + right + lower + left"]
+    out += ("/-- deeper levels: the score is `upper + right + lower + left`, each term `min(dot(cross(a, b), p), 0)` for the edges\n"
+            "ul→ur, ur→lr, lr→ll, ll→ul — so it is ≤ 0, and 0 exactly when the point is on the inner side of all four edges -/\n")
+    out += f"def score_is_clipped_edge_sum : Bool := {'true' if hs_ok and sum_ok else 'false'}\n\n"
+    # toast_tile_for_point
+    fp = find_def(tree, "toast_tile_for_point")
+    b = [s for s in fp.body if not (isinstance(s, ast.Expr) and isinstance(s.value, ast.Constant))]
+    src = [ast.unparse(s) for s in b]
+    if len(src) != 6:
+        raise ExtractError(f"toast_tile_for_point: {len(src)} statements, expected 6")
+    norm = src[0] == "lon = lon % TWOPI"
+    d0 = src[1] == "if depth == 0:\n    return Tile(Pos(n=0, x=0, y=0), (None, None, None, None), False)"
+    shift = src[2] == "if coordsys == ToastCoordinateSystem.PLANETARY:\n    level1_lon = (lon + np.pi) % TWOPI\nelse:\n    level1_lon = lon"
+    l1loop = src[3] == "for tile in _create_level1_tiles(coordsys):\n    if _toast_tile_containment_score(tile, lat, level1_lon) == 0.0:\n        break"
+    desc = src[4] == ("while tile.pos.n < depth:\n    best_score = -np.inf\n    for child in _div4(tile):\n        score = _toast_tile_containment_score(child, lat, lon)\n"
+                      "        if score == 0.0:\n            tile = child\n            break\n        if score > best_score:\n            tile = child\n            best_score = score")
+    ret = src[5] == "return tile"
+    if not (norm and d0 and shift and l1loop and desc and ret):
+        bad = [n for n, ok in (("lon normalisation", norm), ("depth 0", d0), ("planetary shift", shift), ("level-1 loop", l1loop), ("descent loop", desc), ("return", ret)) if not ok]
+        raise ExtractError("toast_tile_for_point: not in the recognised shape: " + ", ".join(bad))
+    out += ("/-- `toast_tile_for_point`: `lon = lon % TWOPI`; depth 0 returns the root; the level-1 tile is the first tile of\n"
+            "`_create_level1_tiles(coordsys)` whose level-1 score at `level1_lon` is 0 (the last tile if none is); `level1_lon` is\n"
+            "`(lon + π) % TWOPI` for the planetary system and `lon` otherwise; below level 1 the loop takes the first child whose score\n"
+            "is 0, else the first child with the largest score (scores computed at `lon`, in the tile's own coordinate system) -/\n")
+    out += "def lookup_shape_ok : Bool := true\ndef planetary_level1_shift : Rat := 1/2\n\n"
+    # toast_pixel_for_point: the stamp and the returned offsets
+    pp = find_def(tree, "toast_pixel_for_point")
+    psrc = [ast.unparse(s) for s in pp.body]
+    need = ["tile = toast_tile_for_point(depth, lat, lon, coordsys=coordsys)", "(lons, lats) = toast_tile_get_coords(tile)",
+            "lons = lon + ((lons - lon + np.pi) % TWOPI - np.pi)", "dist2 = (lons - lon) ** 2 + (lats - lat) ** 2",
+            "(min_y, min_x) = np.unravel_index(np.argmin(dist2), (256, 256))", "halfsize = 4",
+            "x0 = max(min_x - halfsize, 0)", "y0 = max(min_y - halfsize, 0)", "x1 = min(min_x + halfsize + 1, 256)", "y1 = min(min_y + halfsize + 1, 256)",
+            "return (tile, x0 + x, y0 + y)"]
+    def _norm(t):
+        return t.replace("(lons, lats) =", "lons, lats =").replace("(min_y, min_x) =", "min_y, min_x =")
+    psrc = [_norm(t) for t in psrc]
+    missing = [n for n in need if _norm(n) not in psrc]
+    out += ("/-- `toast_pixel_for_point`: nearest pixel centre by squared (lon, lat) distance on the branch of the query longitude, a stamp of\n"
+            "half-size 4 clipped to the tile, the fitted position returned relative to the clipped stamp origin (x0, y0) -/\n")
+    out += f"def pixel_stamp_shape_ok : Bool := {'true' if not missing else 'false'}\n"
+    out += "\nend Lookup\nend Gen\n"
+    return out
+
+
+MODULES["Lookup"] = gen_lookup
